@@ -210,7 +210,8 @@ Lemma source_tie_proved :
   src_compaction_user_overhead = true /\ src_compaction_overhead = true /\
   src_dosave_order = true /\ src_commit_order = true /\ src_recover_order = true /\
   src_remove_log_order = true /\ src_save_raft_state_before_process_snapshot = true /\
-  src_snapshot_update_not_fast_applied = true.
+  src_snapshot_update_not_fast_applied = true /\
+  src_can_stream_guard = true /\ src_ready_to_stream = true /\ src_concurrent_save_syncs = true.
 Proof. repeat split; reflexivity. Qed.
 
 (* ====================================================================== *)
@@ -1226,6 +1227,83 @@ Proof.
       repeat split; try lia. intros Q. rewrite I3, E1; auto. lia.
     + destruct (IH s1 st' evs2 OD R) as (I1 & I2 & I3); [lia|].
       repeat split; try lia.
+Qed.
+
+(* ---- streaming from an on-disk replica ------------------------------------------ *)
+
+(* onDiskIndex never runs ahead of both the applied position and the index the
+   state machine was opened at *)
+Definition od_bounded (st : state) : Prop := r_od st <= N.max (r_index st) (r_od_init st).
+
+Lemma apply_entry_od_bounded : forall cfg (st st' : state) e ev,
+  c_ondisk cfg = true -> apply_entry cfg st e = Ok (st', ev) -> od_bounded st -> od_bounded st'.
+Proof.
+  intros cfg st st' e ev OD A B. unfold od_bounded in *.
+  pose proof (apply_entry_shape _ _ _ _ _ A) as (a1 & _ & a3 & _ & _ & _ & a7 & _).
+  destruct (apply_entry_od _ _ _ _ _ OD A) as [[_ E]|E]; rewrite a7; lia.
+Qed.
+
+Lemma run_entries_od_bounded : forall cfg es (st st' : state) evs,
+  c_ondisk cfg = true -> run_entries cfg st es = Ok (st', evs) -> od_bounded st -> od_bounded st'.
+Proof.
+  induction es as [|e r IH]; intros st st' evs OD H B.
+  - cbn in H. inversion H; subst. exact B.
+  - cbn [RsmApply.run_entries] in H.
+    destruct (apply_entry cfg st e) as [[s1 ev]|x] eqn:A; cbn [bind fst snd] in H; [|discriminate].
+    destruct (run_entries cfg s1 r) as [[s2 evs2]|x] eqn:R; cbn [bind fst snd] in H; [|discriminate].
+    inversion H; subst. eapply IH; eauto. eapply apply_entry_od_bounded; eauto.
+Qed.
+
+Lemma recover_od_bounded : forall cfg (st0 st_r : state) img,
+  c_ondisk cfg = true -> r_od st0 <= r_od_init st0 -> i_od img <= i_index img ->
+  recover cfg true st0 img = Ok (Recovered st_r) -> od_bounded st_r.
+Proof.
+  intros cfg [sm tab mem idx tm li lt odi od ssi] st_r img OD B W.
+  unfold RsmApply.recover, load, apply_snapshot, od_bounded, bind, with_last, with_applied, with_mem, with_od, with_od_init, with_sess.
+  cbn [r_sm r_tab r_mem r_index r_term r_last_index r_last_term r_od_init r_od r_ss_index] in *.
+  rewrite OD. cbn [negb andb].
+  destruct (i_index img <=? li); [dis|].
+  destruct (i_witness img || i_dummy img) eqn:P; cbn [negb andb orb].
+  - destruct (odi <? i_od img); [dis|]. intros H; inversion H; subst. cbn. lia.
+  - destruct (i_shrunk img); cbn [orb].
+    + destruct (odi <? i_od img); [dis|]. intros H; inversion H; subst. cbn. lia.
+    + destruct (i_imported img || (odi <? i_od img)) eqn:RQ.
+      * destruct (negb (i_imported img && true) && ((i_od img <=? odi) || (i_od img <=? od))); [dis|].
+        destruct (Session.load (i_sessions img)); [|dis].
+        destruct (i_data img); [|dis]. destruct (sm_recover b); [|dis].
+        destruct (i_imported img && true); intros H; inversion H; subst; cbn; lia.
+      * intros H; inversion H; subst. cbn. lia.
+Qed.
+
+(* A STREAMED SNAPSHOT NEVER CARRIES DATA NEWER THAN ITS INDEX. An on-disk
+   replica restarted with its state machine opened at D, recovered from whatever
+   snapshot it had recorded and then handed any part of its log, accepts a
+   Stream task (node.canStream -> ReadyToStream) only in states where the image
+   it would produce has OnDiskIndex <= Index: the follower that installs it never
+   re-applies an entry the data already contains. (While the replica is still
+   replaying below D the request is refused and raft retries.) *)
+Lemma stream_image_not_ahead_proved : forall cfg cap (s : S) D img (st_r st : state) es evs m st1,
+  c_ondisk cfg = true -> i_od img <= i_index img ->
+  recover cfg true (open_ondisk (init_state cap s) D) img = Ok (Recovered st_r) ->
+  run_entries cfg st_r es = Ok (st, evs) ->
+  ready_to_stream cfg (sync st) = true ->
+  prepare cfg SSStreaming (sync st) = Ok (Prepared m st1) ->
+  mt_od m <= mt_index m /\ i_od (image_of cfg m) <= i_index (image_of cfg m).
+Proof.
+  intros cfg cap s D img st_r st es evs m st1 OD W REC RUN RDY PRE.
+  assert (B0 : od_bounded st_r).
+  { eapply recover_od_bounded; eauto. unfold open_ondisk, init_state, with_od, with_od_init. cbn. lia. }
+  pose proof (run_entries_od_bounded cfg es st_r st evs OD RUN B0) as B.
+  unfold ready_to_stream in RDY. rewrite OD in RDY.
+  assert (G : r_od st <= r_index st).
+  { unfold od_bounded in B. destruct st; unfold sync, with_last in RDY; cbn in *. lia. }
+  unfold RsmApply.prepare in PRE.
+  destruct (r_last_index (sync st) <? r_ss_index (sync st)); [discriminate|].
+  destruct (negb (c_ondisk cfg) && negb false && (0 <? r_last_index (sync st)) && (r_last_index (sync st) =? r_ss_index (sync st))); [discriminate|].
+  destruct (Membership.m_is_empty (r_mem (sync st))); [discriminate|].
+  destruct (Session.save (r_tab (sync st))) as [[sv tab']|]; [|discriminate].
+  inversion PRE; subst. unfold RsmApply.image_of. cbn [mt_kind mt_od mt_index i_od i_index].
+  destruct st; cbn in *. split; exact G.
 Qed.
 
 Lemma apply_entry_ondisk_tab : forall cfg (st st' : state) e ev,
